@@ -25,7 +25,7 @@ def main(argv):
         tier = rp.get('tier', tier)
         prop = rp.get('property', prop)
         print('replaying %s (seed %d, tier %s)' % (prop, seed, tier))
-    import props_lex, props_def
+    import props_lex, props_def, props_lib
     table = {
         'C01': lambda: props_lex.check_stream_props('C01', tier, seed),
         'C02': lambda: props_lex.check_stream_props('C02', tier, seed),
@@ -39,6 +39,7 @@ def main(argv):
         'C10': lambda: props_def.check_c10(tier, seed),
         'C11': lambda: props_def.check_c11(tier, seed),
         'C18': lambda: props_def.check_c18(tier, seed),
+        'C15': lambda: props_lib.check_c15(tier, seed),
         'C13': lambda: props_lex.check_c13(tier, seed),
         'C20': lambda: props_lex.check_c20(tier, seed),
     }
